@@ -302,6 +302,9 @@ func runC03(cfg *vh.Config) error {
 		if oq.Kind == "ok" {
 			res.Sample(map[string]any{"stream": "query", "query": q.Encode()}, 16)
 		}
+		if len(q) <= 4 {
+			em.add(queryCase(t, q, oq), "query", input, map[string]any{"kind": oq.Kind, "err": oq.Err})
+		}
 		em.caseNo++
 	}
 
